@@ -931,6 +931,80 @@ fn eval_clock(c: &ClockCase) -> Outcome {
 }
 
 // ------------------------------------------------------------------------------------------
+// a muxer whose sink failed must not leave anything behind for the next muxer on the thread
+
+fn eval_after_failure(c: &ValidCase) -> Outcome {
+    use crate::faultsink::{FaultSink, Script};
+    let mut o = Outcome::default();
+    let l = lower(c);
+    let r = run_history(&l.cfg, &l.ops);
+    if r.panic.is_some() || r.finished_at.is_none() {
+        o.class("reference_run_unusable");
+        return o;
+    }
+    // the follower: a small fixed recording, and the same recording again
+    let mut small = crate::exec::CCfg::basic(c.cfg.codec % 4);
+    small.fast_start = Some(!c.cfg.fast_start);
+    let follower_ops: Vec<COp> = {
+        let mut fc = FirstCfg::default();
+        let mut v = Vec::new();
+        for i in 0..3usize {
+            let g = VGene { ddts: 3000, cts: 0, key: i == 0, size: 20 + i as u16, shape: 0, jit: 0, big: 0 };
+            let (bytes, _) = video_frame(&c.cfg, &g, i, i == 0, &mut fc);
+            v.push(COp::Video { pts: i as f64 / 30.0, data: bytes, key: i == 0 });
+        }
+        v.push(COp::Finish(FinishKind::InPlaceStats));
+        v
+    };
+    let follower_ref = run_history(&small, &follower_ops);
+    if follower_ref.panic.is_some() {
+        o.aborted_by_panic = follower_ref.panic;
+        return o;
+    }
+    let n_calls = r.sink.writes.len();
+    for call in 0..n_calls {
+        for (k, script) in [Script::FailAtCall { call, kind: (call % 6) as u8 }, Script::FailOnceAtCall { call, kind: 7 }].into_iter().enumerate() {
+            o.sub_evals += 1;
+            let sink = FaultSink::new(script.clone());
+            let st = sink.st.clone();
+            let _failed = crate::exec::run_history_on(&l.cfg, &l.ops, sink, move || {
+                let s = st.lock().unwrap();
+                crate::exec::SinkState { bytes: s.accepted.clone(), writes: vec![], flushes: vec![], current_call: s.current_call }
+            });
+            for (who, cfg, ops, want) in [("a small recording", &small, &follower_ops, &follower_ref), ("the same recording", &l.cfg, &l.ops, &r)] {
+                let again = run_history(cfg, ops);
+                if again.out != want.out || !same_returns(&again.results, &want.results) {
+                    o.fail(
+                        "same_bytes",
+                        format!("same_bytes.after_a_failed_muxer.{}", if k == 0 { "sticky" } else { "transient" }),
+                        format!("{} muxed on the same thread after a muxer whose sink failed at write call {} gives {} bytes instead of {}", who, call, again.out.len(), want.out.len()),
+                    );
+                    return o;
+                }
+            }
+        }
+    }
+    o.nontrivial = n_calls >= 3;
+    o
+}
+
+fn after_failure_cases(t: Tier) -> Vec<ValidCase> {
+    let mut v = crate::scenario::aimed_cases(t);
+    // and a few ordinary small ones
+    for (codec, audio) in [(0u8, 1u8), (1, 0), (2, 7), (3, 1)] {
+        let mut c = crate::scenario::long_cases(false).into_iter().next().unwrap();
+        c.cfg.codec = codec;
+        c.cfg.audio = audio;
+        if let Some(e) = c.expand.as_mut() {
+            e.nv = 12;
+            e.na = if audio == 0 { 0 } else { 9 };
+        }
+        v.push(c);
+    }
+    v
+}
+
+// ------------------------------------------------------------------------------------------
 // fragmented muxers taking turns on one thread
 
 #[derive(Clone, Debug, Serialize, Deserialize, PartialEq, Eq, Hash)]
@@ -1021,6 +1095,12 @@ pub fn def() -> PropertyDef {
         ],
         subs: vec![
             Box::new(PSub { name: "instances_threads_sinks", quick: 1200, thorough: 40000, strat: pure_strategy, eval: eval_pure }),
+            Box::new(LSub {
+                name: "after_a_failed_muxer",
+                cases: after_failure_cases,
+                eval: eval_after_failure,
+                note: "for every write call of a recording (incl. the ones aimed at 2^k file offsets): the sink fails there (sticky / once), then a small recording and the same recording are muxed on the same thread and compared with their references",
+            }),
             Box::new(PSub { name: "fragmented_instances", quick: 3000, thorough: 100000, strat: frag_pool_strategy, eval: eval_frag_pool }),
             Box::new(PSub { name: "equivalent_paths", quick: 8000, thorough: 250000, strat: path_strategy, eval: eval_paths }),
             Box::new(ESub { name: "send_generic", run: run_probe, replay: replay_probe }),
